@@ -711,7 +711,7 @@ def _integrate_phi(phi, xx, integration_params, pop_ids):
            h1=h[0], h2=h[1], h3=h[2], h4=h[3], h5=h[4],
            theta0=theta, initial_t=0, 
            frozen1=frozen[0], frozen2=frozen[1], frozen3=frozen[2], 
-           frozen4=frozen[3], frozen5=frozen[3],
+           frozen4=frozen[3], frozen5=frozen[4],
            deme_ids=pop_ids
            )
     return phi
